@@ -192,6 +192,8 @@ class MG(Native):
 
 
 class World:
+    compose_prune = False
+
     """One abstract plan + registry; interprets the registry application on it."""
 
     def __init__(self, m, rr):
@@ -274,10 +276,16 @@ class World:
             if rr.stale in fs:
                 stubs[c.func.id] = Stub("stale", lambda *a, **k: set(stale_nodes))
             elif prune_fn in fs:
-                def prune(plan, **kw):
+                def prune(plan, _real=prune_fn, **kw):
                     rec["required"] = set(kw.get("required_nodes", ()))
                     rec["prune_output"] = kw.get("output_node")
                     rec["graph_at_prune"] = plan.attrs["graph"].copy()
+                    if self.compose_prune:
+                        # the transformation *composed* with the real pruning, with the arguments exactly as they are handed over
+                        # (a one-shot iterable stays one-shot): what survives?
+                        res = self.interp.call_func(_real, None, [plan], kw)
+                        rec["survivors"] = list(res.attrs["graph"]._nodes) if isinstance(res, Obj) and "graph" in res.attrs else None
+                        return res
                     return plan
                 stubs[c.func.id] = Stub("prune", prune)
             elif fs and all(f is not rr.rewrite and not _roles.is_mutable_plan_func(m, f) for f in fs) and \
@@ -426,11 +434,44 @@ def rule_edge_effect_table(ctx, rid, rr, rid_fresh=None, rid_frames=None):
     ctx.floor(rid, "generic single-entry cases", n, 4)
 
 
+def rule_independent_entries(ctx, rid, rr):
+    """Two registered calls that do not depend on each other, the output is one of them: the transformation composed with the real
+    pruning keeps the write of the *other* one when it is out of date (it is required although the output does not depend on it)."""
+    m = ctx.model
+    probs, n = [], 0
+    for stA, stB, out in ((True, False, "B"), (True, True, "B"), (True, False, None), (False, True, "A")):
+        w = World(m, rr)
+        w.compose_prune = True
+        A, B = w.call("A"), w.call("B")
+        Ua, Ub = w.call("Ua"), w.call("Ub")
+        w.edge(Ua, A, "Pos", 0)
+        w.edge(Ub, B, "Pos", 0)
+        w.register(A, False)
+        w.register(B, False)
+        stale = {x for x, s_ in ((A, stA), (B, stB)) if s_}
+        rec = w.apply(stale, {"A": A, "B": B, None: None}[out])
+        n += 1
+        surv = rec.get("survivors")
+        if surv is None:
+            raise AnalysisError("W: the composed pruning did not return a plan")
+        req = list(rec.get("required", ()))
+        if len(req) != int(stA) + int(stB):
+            probs.append(f"stale A={stA} B={stB}, output {out}: {len(req)} node(s) are handed to the pruning as required, {int(stA) + int(stB)} entries are out of date")
+        lost = [y for y in req if not any(y is z for z in surv)]
+        if lost:
+            probs.append(f"stale A={stA} B={stB}, output {out}: {len(lost)} required write node(s) do not survive the pruning (not upstream of the "
+                         f"output): the run succeeds and leaves an out-of-date store as it is")
+    ctx.ob(rid, f"{rr.apply.short}/independent-entries", not probs, loc(rr.apply),
+           f"evaluated on {n} plans with two independent registered calls: every out-of-date entry is written, whatever the output" if not probs
+           else "; ".join(probs[:2]))
+
+
 def rule_two_entry_chains(ctx, rid, rr):
     """Happens-before constraints on all two-entry chains A -> B in both registration orders."""
     m = ctx.model
     n = 0
     bad = []
+    rule_independent_entries(ctx, rid, rr)
     for rel, b_src in (("arg", False), ("dep", False), ("dep", True)):
         for order in ("AB", "BA"):
             for stA, stB in ((True, True), (False, True), (False, False)):
